@@ -115,9 +115,9 @@ def submission():
     files = {'answer.py': BASE}
     files.update(EXTRA_FILES)
     return Submission(files=files, main_file='answer.py', main_code=BASE)
-ENTRIES = ['run', 'call', 'evaluate']
+ENTRIES = ['run', 'call', 'evaluate', 'run-real-io']
 SCHEDULES = ['caller-first', 'student-first', 'student-during-next', 'student-never']
-FOLLOWUPS = [['run-exit-threaded', 'run-print'], ['call-say', 'run-slow'], ['run-print', 'run-slow'], ['evaluate-say', 'call-ask'], ['call-ask', 'run-slow', 'call-say'], ['run-slow', 'run-print'], []]
+FOLLOWUPS = [['run-input-default', 'run-print'], ['run-exit-threaded', 'run-print'], ['call-say', 'run-slow'], ['run-print', 'run-slow'], ['evaluate-say', 'call-ask'], ['call-ask', 'run-slow', 'call-say'], ['run-slow', 'run-print'], []]
 LIMITS = [0.1, 0.2]
 REACHES_HANDLER = {'spin', 'spin_print', 'swallow_exception', 'writer', 'import_spin', 'import_spin_print'}
 
@@ -130,7 +130,8 @@ def table(tier):
     i = 0
     for kind, sched in itertools.product(KINDS, SCHEDULES):
         for entry in ENTRIES:
-            yield {'kind': kind, 'entry': entry, 'schedule': sched, 'followups': FOLLOWUPS[i % len(FOLLOWUPS)], 'limit': LIMITS[i % 2]}
+            fu = FOLLOWUPS[0] if entry == 'run-real-io' and i % 3 else FOLLOWUPS[i % len(FOLLOWUPS)]
+            yield {'kind': kind, 'entry': entry, 'schedule': sched, 'followups': fu, 'limit': LIMITS[i % 2]}
             i += 1
 
 
@@ -156,6 +157,10 @@ def do_followup(sb, name, sync=None):
         sb.threaded = True
         sb.allowed_time = 5
         sb.run("import sys\nprint('leaving')\nresult_value = 3\nsys.exit(3)\n", filename='answer.py')
+        r = sb.data.get('result_value')
+    elif name == 'run-input-default':
+        # nothing queued: input() gives the sandbox's default, its prompt is captured, nothing is read from the real stdin
+        sb.run("answer = input('How many?')\nprint('got', answer)\nresult_value = answer\n", filename='answer.py')
         r = sb.data.get('result_value')
     elif name == 'run-slow':
         # long enough (tens of ms) for a still-running abandoned thread to get the GIL and write into this capture
@@ -255,6 +260,9 @@ def judge(case):
     try:
         if entry == 'run':
             sb.run('%s()\n' % kind, filename='answer.py')
+        elif entry == 'run-real-io':
+            # real input/output allowed for this one execution only: what it switched on is switched off again when it times out
+            sb.run('%s()\n' % kind, filename='answer.py', real_io=True)
         elif entry == 'call':
             sb.call(kind)
         else:
